@@ -538,11 +538,19 @@ class Executor:
         goal = z3.simplify(goal)
         off = node.get('off')
         if off and kind == 'nooverflow':
-            # a multi-line expression: the sanitizer reports the line of the
-            # operator, which can be below the first line of the expression
+            # the exact lines of the expression, from its source offsets (the
+            # AST only gives the line of the enclosing statement for nested
+            # nodes); the sanitizer reports the line of the operator
             extra = dict(extra or {})
-            extra['line_end'] = node.get('line', 0) + self.tu['src'][
-                off[0]:off[1]].count('\n')
+            nl = self.__dict__.get('_nl')
+            if nl is None:
+                import bisect
+                src = self.tu['src'].encode('utf-8', 'replace')
+                nl = [i for i, c in enumerate(src) if c == 10]
+                self._nl = nl
+            import bisect
+            extra['line_start'] = bisect.bisect_left(nl, off[0]) + 1
+            extra['line_end'] = bisect.bisect_left(nl, off[1]) + 1
         if z3.is_true(goal):
             # trivially true obligations are still counted (as discharged by
             # simplification) so that coverage numbers are honest
@@ -838,6 +846,9 @@ class Executor:
         h = self.externs.get('global:' + loc.name)
         if h:
             return h(self, st, n)
+        c = self.global_const(loc.name)
+        if c is not None:
+            return IntV(z3.IntVal(c), loc.ty)
         t = CT(loc.ty)
         if t.kind == 'ptr' and loc.name.startswith('PyExc_'):
             return PtrV(None, 0, 'PyObject', obj=self.exc_obj(loc.name))
@@ -1043,6 +1054,33 @@ class Executor:
                         n.get('ty', 'void'))
         raise Unsupported('address-of %r' % (loc,))
 
+    def global_const(self, name):
+        """value of a global integer variable that has a literal initialiser
+        and is never assigned, incremented or decremented anywhere in its
+        translation unit (e.g. `int intOne = 1;` whose address is passed to
+        BLAS); None otherwise"""
+        cache = self.__dict__.setdefault('_gconst', {})
+        if name in cache:
+            return cache[name]
+        val = None
+        g = self.tu.get('globals', {}).get(name)
+        if g is not None and CT(g.get('ty', '')).kind == 'int':
+            e = (g.get('inner') or [None])[0]
+            while e is not None and e.get('kind') in (
+                    'ImplicitCastExpr', 'ParenExpr') and e.get('inner'):
+                e = e['inner'][0]
+            if e is not None and e.get('kind') == 'IntegerLiteral':
+                import re
+                src = self.tu['src']
+                writes = re.findall(
+                    r'(?<![\w.>])%s\s*(?:=(?!=)|\+\+|--|[-+*/%%&|^]=|<<=|>>=)'
+                    r'|(?:\+\+|--)\s*%s\b' % (re.escape(name),
+                                                re.escape(name)), src)
+                if len(writes) <= 1:      # the initialiser itself
+                    val = int(e['value'])
+        cache[name] = val
+        return val
+
     def load_through(self, p, st, n):
         """value currently stored in the object p points to (for externs that
         read their by-reference scalar arguments)."""
@@ -1050,6 +1088,11 @@ class Executor:
             r = p.region
             if r.kind == 'local' and r.owner in st.vars:
                 return st.vars[r.owner]
+            if r.kind == 'local' and isinstance(r.owner, tuple) and \
+                    r.owner[0] == 'global':
+                c = self.global_const(r.owner[1])
+                if c is not None:
+                    return IntV(z3.IntVal(c), 'int')
             if r.kind == 'localfield':
                 key, fld = r.owner
                 b = st.vars.get(key)
